@@ -62,6 +62,17 @@ def gen_scenario(rng):
                 mcast=[rng.choice([20, 70, 120]) for _ in range(40)], tcd=[rng.choice([400, 450, 500]) for _ in range(10)])
 
 
+def vary(sc, rng):
+    """same services and withdrawal, the queries re-timed on a fine grid (answers waiting in either queue when the goodbyes go out)"""
+    import copy
+    v = copy.deepcopy(sc)
+    v['queries'] = sorted([(rng.randrange(-1500, 420, 5), q) for _, q in v['queries']] +
+                          [(rng.randrange(-1500, 420, 5), gen_query(rng, v['svcs'])) for _ in range(rng.choice([0, 1, 2]))], key=lambda q: q[0])
+    v['loopback'] = rng.random() < 0.75
+    v['mcast'] = [rng.choice([20, 70, 120]) for _ in range(40)]
+    return v
+
+
 def corpus():
     """the schedules of the two repaired defects (repro/c08_resurrection.py, repro/c08_additional_resurrection.py)"""
     v4, v6 = [bytes([10, 0, 0, 1])], [bytes([0xfe, 0x80] + [0] * 13 + [1])]
@@ -243,7 +254,7 @@ def run(ctx):
                        "multicast loopback (own answers seen in the cache: 1 s flood-protection path); 1-5 queries (1-3 questions PTR/SRV/TXT/A/AAAA/ANY/"
                        "enumeration, QM/QU, mDNS and legacy source ports, TC-deferred) on a grid from 1.5 s before to 1.1 s after the withdrawal; the victim is "
                        "unregistered (optionally a second service later) or the instance closed; 4 s of observation; distinct = distinct scenarios")
-    c09.replay_model(ctx, ok, 'Model.Node (withdrawal) disagrees with the implementation')
+    c09.replay_model(ctx, ok, 'Model.Node (withdrawal) disagrees with the implementation', vary=vary)
     return ctx.finish()
 
 
